@@ -313,4 +313,11 @@ def rule_counts(ck):
     c03.rule_mag_sentinel(ck)
 
 
-RULES = [rule_kernel, rule_callsites, rule_normalisation, rule_public, rule_counts]
+def rule_simulated_catalogs(ck):
+    """every entry of the test distribution is the same function of a freshly simulated catalog (shared C06-D6)."""
+    from . import c06
+    ck.clause('shared C06-D6 (scratch array reset on every path)')
+    c06.rule_reset(ck)
+
+
+RULES = [rule_kernel, rule_callsites, rule_normalisation, rule_public, rule_counts, rule_simulated_catalogs]
